@@ -34,12 +34,23 @@ def main():
     demo_ok = None
     for d in demos:
         first = open(d, errors="replace").read(600)
-        m = re.search(r"[Pp]lace (?:this file )?in\s+(\S+?)/?[\s(]", first)
-        r = re.search(r"run:?\s*`?([^\n`]+)", first)
-        if not (m and r):
-            print("cannot parse demo header of", d, "::", first[:200]); continue
-        ddir = os.path.join(wt, m.group(1).strip("`"))
-        dst = os.path.join(ddir, "zz_seed_demo_" + os.path.basename(d))
+        first = open(d, errors="replace").read(2500)
+        m = re.search(r"[Pp]lace (?:this file )?(?:in|at|under):?\s+`?(\S+?)`?/?[\s(,]", first)
+        cmds = [re.sub(r"^\s*(//|#)\s*", "", ln).strip().strip("`") for ln in first.splitlines()
+                if re.search(r"go (test|run)", ln) and re.match(r"\s*(//|#|\*)", ln)]
+        cmds = [re.sub(r"^.*?run:?\s*", "", c) if "run:" in c or "run " in c.split("go ")[0] else c for c in cmds]
+        if not (m and cmds):
+            print("cannot parse demo header of", d, "::", first[:300]); continue
+        rel = m.group(1).strip("`")
+        rel = rel.replace(wt + "/", "")
+        if rel.endswith(".go"):
+            ddir, base = os.path.join(wt, os.path.dirname(rel)), os.path.basename(rel)
+        else:
+            ddir, base = os.path.join(wt, rel), "zz_seed_demo_" + os.path.basename(d)
+        dst = os.path.join(ddir, base)
+        class R:  # keep the code below unchanged
+            def group(self, i): return cmds[0]
+        r = R()
         if not dst.endswith("_test.go") and d.endswith("_test.go"):
             dst = dst
         os.makedirs(ddir, exist_ok=True)
